@@ -87,7 +87,7 @@ FAULTS = [
 def shapes(tier, seed):
     rnd = random.Random(1400 + seed)
     S = []
-    n = 24 if tier == 'quick' else 500
+    n = 80 if tier == 'quick' else 1500
     progs = []
     for i in range(n):
         prog, syms = c02.random_program(rnd, rnd.randint(4, 8))
@@ -104,13 +104,16 @@ def shapes(tier, seed):
             prog.insert(rnd.randint(0, len(prog)), zl())
         syms = sorted(set([s for s in syms if s != 'v1'] + ['z']))
         consts = {k: (c02.SYMS[k] if k != 'z' else (0, 3)) for k in syms}
-        consts['o0'] = (0, 0x800)
+        # termination / fail-closed do not depend on the origin: a concrete (seeded) origin keeps .align from splitting
+        # every path by residue class
+        org = rnd.randint(0, 0x800)
+        consts['o0'] = org
         if 'n' in consts:
             consts['n'] = (0, 3)
         progs.append((prog, consts))
         S.append(TermShape(f'zero-length:{seed}:{i}', prog={'main.asm': prog},
-                           cfgargs=dict(origin=Sym('o0', 0, 0x800), consts=consts),
-                           props=['C14', 'C03'], binary=True, start=Sym('o0', 0, 0x800), width=40, expect=[]))
+                           cfgargs=dict(origin=org, consts=consts),
+                           props=['C14', 'C03'], binary=True, start=org, width=40, expect=[]))
     # a zero-length line that shares its address with a real line placed by .org (historical hang / shadowing)
     S.append(TermShape('zero-length:same-address-via-org',
                        prog={'main.asm': [('data', '.byte', [C(7), C(8)]), ('org', V('o0'), None), ('zero', C(0)),
@@ -143,6 +146,6 @@ def shapes(tier, seed):
             cs['negbig'] = (-4095, -2049)       # fits neither the signed nor the unsigned range of a 12-bit field
             cs['posbig'] = (4096, 9000)
             S.append(BadProgram(f'fault:{fault}:{k}', prog={'main.asm': prog}, files={'main.asm': '\n'.join(lines) + '\n'},
-                                fault=fault, cfgargs=dict(origin=Sym('o0', 0, 0x800), consts=cs), props=['C14'], binary=True,
-                                start=Sym('o0', 0, 0x800), width=40))
+                                fault=fault, cfgargs=dict(origin=cs['o0'], consts=cs), props=['C14'], binary=True,
+                                start=cs['o0'], width=40))
     return S
